@@ -56,7 +56,7 @@ func main() {
 		"work = (configured maximum, work-factor argument, work factor the stanza was really sealed at, route). non-trivial = the real Encrypt / ScryptIdentity.Unwrap / Decrypt " +
 		"was executed on it and its result (and, where claimed, its alloc-meter reading) was compared with the model; distinct by that tuple"
 	r.Assumptions = []string{
-		"library level only: the CLI route (age -d on a pty, LazyScryptIdentity) is decided by a separate monitor",
+		"the CLI route (age -d on a pty, LazyScryptIdentity) is exercised on a small set of reference-built files: no prompt for a non-lone passphrase stanza, clean refusal of over-limit and non-canonical work factors under an address-space limit",
 		"'without deriving a key' is measured only where the avoided derivation is >= 1 MiB (offered or sealed work factor >= 10): TotalAlloc delta < 256 KiB; below that the functional half (no file key although the passphrase is right) decides alone",
 		"headers have 1..4 stanzas (1..5 in thorough); recipient lists 2..4 (2..5 in thorough)",
 		"over-limit work factors are explored up to 33 plus overflowing decimals; values above 15 (quick) / 18 (thorough) are attached to a stanza sealed at 10 and run in a child under RLIMIT_AS",
@@ -76,6 +76,7 @@ func main() {
 	// The metered part runs alone: every worker of the parallel parts above has
 	// returned (mon.Par waits), nothing else allocates.
 	workSide(r)
+	cliSide(r)
 	rep.finish()
 	r.Finish()
 }
